@@ -131,6 +131,38 @@ def stmt_cands(code):
     return out
 
 
+KEYWORDS = set("as break const continue crate else enum extern false fn for if impl in let loop match mod move mut pub ref return self Self static struct super trait true type unsafe use where while dyn usize u64 u32 u16 u8 f64 i32 i64 bool str Some None Ok Err Vec Option Result".split())
+IDENT = re.compile(r"(?<![A-Za-z0-9_.:])([a-z_][a-z0-9_]*)(?![A-Za-z0-9_(!:])")
+FIELD = re.compile(r"(?<=\bself\.)([a-z_][a-z0-9_]*)(?![A-Za-z0-9_(])")
+
+
+def ident_cands(code, lines, ln):
+    """fourth operator set: a local identifier / a field of self replaced by another one that occurs within 8 lines"""
+    out = []
+    lo, hi = max(0, ln - 8), min(len(lines), ln + 9)
+    ctx = "\n".join(l[:code_part(l)] for l in lines[lo:hi])
+    names = sorted({m.group(1) for m in IDENT.finditer(ctx)} - KEYWORDS)
+    fields = sorted({m.group(1) for m in FIELD.finditer(ctx)})
+    if code.lstrip().startswith(("fn ", "pub fn ", "let ", "for ")):
+        # do not rename bindings themselves (declaration side); uses on the same line are still mutated below for `let`
+        pass
+    for m in IDENT.finditer(code):
+        if m.group(1) in KEYWORDS:
+            continue
+        # skip the binding position of let / for
+        before = code[:m.start()].rstrip()
+        if before.endswith(("let", "let mut", "for", "fn", "|", "mut")) or code[m.end():].lstrip().startswith(("=", ":")) and not code[m.end():].lstrip().startswith("=="):
+            continue
+        for n in names:
+            if n != m.group(1):
+                out.append((m.start(), m.group(1), n))
+    for m in FIELD.finditer(code):
+        for n in fields:
+            if n != m.group(1):
+                out.append((m.start(), m.group(1), n))
+    return out
+
+
 def gen():
     os.makedirs(MU, exist_ok=True)
     out = []
@@ -155,6 +187,8 @@ def gen():
                 cands = branch_cands(code)
             if OPS == 3:
                 cands = stmt_cands(code)
+            if OPS == 4:
+                cands = ident_cands(code, lines, ln)
             for old, news in BINOPS if OPS == 1 else []:
                 for m in re.finditer(re.escape(old), code):
                     for new in news:
